@@ -71,6 +71,7 @@ func (c rsClient) HeaderByNumber(ctx context.Context, n *big.Int) (*ethtypes.Hea
 // scripted downloader: delivers block `cursor` of the chain as it is at that moment, one block per permit
 type rsRun struct {
 	permits chan chan bool // the harness sends a reply channel; the run answers whether it delivered a block
+	from    uint64         // the block this run was asked to start from
 }
 type rsDownloader struct {
 	mu    gosync.Mutex
@@ -85,7 +86,7 @@ func (d *rsDownloader) RuntimeData(ctx context.Context) (sync.RuntimeData, error
 }
 
 func (d *rsDownloader) Download(ctx context.Context, from uint64, ch chan sync.EVMBlock) {
-	run := &rsRun{permits: make(chan chan bool)}
+	run := &rsRun{permits: make(chan chan bool), from: from}
 	d.mu.Lock()
 	d.cur = run
 	d.gen++
@@ -135,9 +136,11 @@ type rsRewinds struct {
 	crash      bool // the next rewind never completes (the node is stopped during it)
 	dead       bool // this driver instance belongs to a stopped node
 	entered    int
+	failLPB    int // the next reads of the last-processed marker fail (a transiently busy database)
 }
 
 type rsWorld struct {
+	failLPBNext int
 	r      *Run
 	dir    string
 	lines  []string
@@ -218,6 +221,19 @@ type rsProcWrap struct {
 	rw *rsRewinds
 }
 
+func (p *rsProcWrap) GetLastProcessedBlock(ctx context.Context) (uint64, error) {
+	p.rw.mu.Lock()
+	f := p.rw.failLPB
+	if f > 0 {
+		p.rw.failLPB--
+	}
+	p.rw.mu.Unlock()
+	if f > 0 {
+		return 0, fmt.Errorf("verif: database is locked")
+	}
+	return p.rsFull.GetLastProcessedBlock(ctx)
+}
+
 func (p *rsProcWrap) Reorg(ctx context.Context, first uint64) error {
 	p.rw.mu.Lock()
 	crash := p.rw.crash
@@ -258,7 +274,7 @@ func (w *rsWorld) start() {
 		s.proc, err = bridgesync.VerifNewProcessor(s.path, "verif-"+s.id, lg())
 		must(err)
 		s.dl = &rsDownloader{c: w.chain, evsOf: rsEvents}
-		s.rw = &rsRewinds{}
+		s.rw = &rsRewinds{failLPB: w.failLPBNext}
 		drv, err := sync.NewEVMDriver(w.rd, rsWrap(s.proc, s.rw), s.dl, s.id, 1,
 			&sync.RetryHandler{RetryAfterErrorPeriod: time.Millisecond, MaxRetryAttemptsAfterError: -1}, false)
 		must(err)
@@ -266,6 +282,23 @@ func (w *rsWorld) start() {
 		s.done = make(chan struct{})
 		go func(s *rsSub) { drv.Sync(ctx); close(s.done) }(s)
 		w.waitRun(s, 0)
+		w.checkResume(s, "after a (re)start")
+	}
+	w.failLPBNext = 0
+}
+
+// C05/C06 monitor: whenever the driver (re)starts its downloader it must resume right after the last block its store
+// holds — earlier and stored blocks are handed over twice, later and a block is skipped
+func (w *rsWorld) checkResume(s *rsSub, when string) {
+	s.dl.mu.Lock()
+	from := s.dl.cur.from
+	s.dl.mu.Unlock()
+	lpb, err := s.proc.GetLastProcessedBlock(context.Background())
+	must(err)
+	w.r.Evals++
+	if from != lpb+1 {
+		w.fail(fmt.Sprintf("[C05,C06] %s subscriber %s resumed downloading at block %d although its store ends at block %d", when, s.id, from, lpb))
+		panic(stopRun{}) // the driver now retries a duplicate block forever
 	}
 }
 
@@ -454,6 +487,7 @@ func (w *rsWorld) exec(line string) string {
 			w.r.Evals++
 			if len(rws) > 0 {
 				w.waitRun(s, p.gen)
+				w.checkResume(s, "after the rewind")
 				out += fmt.Sprintf(" %s:%d", s.id, rws[0])
 				w.r.Count("detect:rewind")
 				if !p.stale {
@@ -565,7 +599,11 @@ func (w *rsWorld) exec(line string) string {
 	case "race": // directed schedule for known finding F5, in a world of its own
 		w.raceExperiment()
 		return "race done"
-	case "restart":
+	case "restart", "restart!":
+		if ws[0] == "restart!" {
+			w.failLPBNext = 1 + len(w.lines)%2 // the first read(s) of the marker fail: the driver must retry, not assume an empty store
+			w.r.Count("restart-marker-read-fails")
+		}
 		w.stop()
 		w.start()
 		out := "up"
@@ -741,7 +779,11 @@ func rsGen(r *Run, rng *Rng) {
 					do(fmt.Sprintf("fin %d", w.chain.fin+uint64(1+rng.Intn(int(tip-w.chain.fin)))))
 				}
 			default:
-				do("restart")
+				if rng.Chance(40) {
+					do("restart!")
+				} else {
+					do("restart")
+				}
 			}
 		}
 		// let the chain grow past everything that was ever tracked, then require convergence
